@@ -117,6 +117,16 @@ Decode(i) ==
         /\ Log("decode", i, OOut(Outcome(dd)))
   /\ UNCHANGED <<heap, cur, alpha, refs>>
 
+(* the same call with compatible=True; offered for probes that contain a symbol only that flag accepts *)
+NeedsCompat(i) == \E j \in 1..Len(DProbes[i]) : Modernize(DProbes[i][j]) # DProbes[i][j]
+DecodeCompat(i) ==
+  /\ CanCall /\ NeedsCompat(i)
+  /\ LET dd == Run(InitStateT(DProbes[i], TRUE, TRUE, Seen))
+     IN /\ capc' = Memo(KeysOfAtoms(dd.atoms))
+        /\ symc' = symc \cup {Modernize(DProbes[i][j]) : j \in 1..Len(DProbes[i])}
+        /\ Log("decode_compat", i, OOut(Outcome(dd)))
+  /\ UNCHANGED <<heap, cur, alpha, refs>>
+
 EncOutcome(x) == OOut(EOutcome(x))
 Encode(j, strict) ==
   /\ CanCall
@@ -130,7 +140,7 @@ ANext == \/ \E n \in Presets : SetPreset(n) \/ GetPreset(n)
          \/ \E i \in 1..Len(Customs) : CallerNew(i)
          \/ \E o \in 1..Len(heap) : SetCustom(o) \/ CallerMutates(o)
          \/ GetConstraints \/ GetAlphabet
-         \/ \E i \in 1..Len(DProbes) : Decode(i)
+         \/ \E i \in 1..Len(DProbes) : Decode(i) \/ DecodeCompat(i)
          \/ \E j \in 1..Len(EProbes) : Encode(j, TRUE) \/ Encode(j, FALSE)
 ASpec == AInit /\ [][ANext]_avars
 
@@ -152,11 +162,13 @@ CachesCoherent == /\ \A k \in DOMAIN capc : capc[k] = Capacity(Cur, k, "")
                   /\ (alpha # 0 => heap[alpha].v = RobustAlphabet(Cur))
 (* every translation result equals the result of a cache-free computation under the live table *)
 FreshDecode(i) == OOut(Outcome(Run(InitStateT(DProbes[i], TRUE, FALSE, Cur))))
+FreshDecodeC(i) == OOut(Outcome(Run(InitStateT(DProbes[i], TRUE, TRUE, Cur))))
 FreshEncode(j, strict) == EncOutcome(ERun(EInitT(EProbes[j], TRUE, strict, Cur)))
 ResultFresh ==
   Len(hist) > 0 =>
     LET h == hist[Len(hist)]
     IN /\ (h.op = "decode" => h.obs = FreshDecode(h.arg))
+       /\ (h.op = "decode_compat" => h.obs = FreshDecodeC(h.arg))
        /\ (h.op = "encode_strict" => h.obs = FreshEncode(h.arg, TRUE))
        /\ (h.op = "encode" => h.obs = FreshEncode(h.arg, FALSE))
 (* strict=False never depends on the table *)
